@@ -177,6 +177,60 @@ func §gen() ITER[int] GEN[int]{
 	RETNIL
 }GEN
 `+StdEntry)
+	noref("yield-value-in-package-variable", "yield-as-value", `
+var §emit = COPKG·Yield[int]
+
+func §gen() ITER[int] GEN[int]{
+	YIELD(1)
+	§emit(2)
+	YIELD(3)
+	RETNIL
+}GEN
+`+StdEntry)
+	noref("yield-value-returned-by-plain-helper", "yield-as-value", `
+func §emitter() func(int) { return COPKG·Yield[int] }
+
+func §gen() ITER[int] GEN[int]{
+	YIELD(1)
+	§emitter()(2)
+	e := §emitter()
+	e(3)
+	YIELD(4)
+	RETNIL
+}GEN
+`+StdEntry)
+	noref("yieldfrom-value-in-struct-field-of-plain-code", "yield-as-value", `
+type §sink struct{ from func(ITER[int]) }
+
+var §s = §sink{from: COPKG·YieldFrom[int]}
+
+func §one() ITER[int] GEN[int]{
+	YIELD(7)
+	RETNIL
+}GEN
+func §gen() ITER[int] GEN[int]{
+	YIELD(1)
+	§s.from(§one())
+	YIELD(3)
+	RETNIL
+}GEN
+`+StdEntry)
+	noref("yield-in-if-init-of-yield-free-if", "yield-in-if-init", `
+func §gen() ITER[int] GEN[int]{
+	big := 0
+	for _, x := range []int{1, 20, 3} {
+		if YIELD(x); x > 10 {
+			big++
+		}
+	}
+	if YIELD(-1); big > 0 {
+		tr.E(1)
+	} else {
+		tr.E(2)
+	}
+	RETNIL
+}GEN
+`+StdEntry)
 	noref("yield-in-nested-plain-closure", "yield-in-plain-closure", `
 func §gen() ITER[int] GEN[int]{
 	YIELD(1)
